@@ -140,6 +140,34 @@ pub fn weyl_fracs(n: usize, stream: u64) -> Vec<u64> {
     v
 }
 
+/// Member `i` of a fixed generic double-double stream: full 52-bit fractions in both words, exponent of
+/// the high word spread over [emin, emax], low word 1..4 binades below half an ulp (so that nearly all
+/// of its bits matter), either sign.  Deterministic (a Weyl sequence through a mixer): the stream is a
+/// fixed alphabet that is enumerated completely, not a random sample.
+pub fn generic_dd(i: u64, stream: u64, emin: i32, emax: i32) -> Option<[f64; 2]> {
+    let mut x: u64 = (i + 1).wrapping_mul(0x9E3779B97F4A7C15).wrapping_add(stream.wrapping_mul(0xD1B54A32D192ED03));
+    let mut next = || {
+        x = x.wrapping_add(0x9E3779B97F4A7C15);
+        let mut z = x;
+        z = (z ^ (z >> 30)).wrapping_mul(0xBF58476D1CE4E5B9);
+        z = (z ^ (z >> 27)).wrapping_mul(0x94D049BB133111EB);
+        z ^ (z >> 31)
+    };
+    let a = next();
+    let b = next();
+    let c = next();
+    let span = (emax - emin + 1) as u64;
+    let e = emin + (c % span) as i32;
+    let hi = mk_f64((c >> 40) & 1 == 1, e, a >> 12)?;
+    let g = ((c >> 42) & 3) as i32;
+    let lo = mk_f64_any((c >> 41) & 1 == 1, e - 54 - g, b >> 12)?;
+    if dd_valid_fast(hi, lo) {
+        Some([hi, lo])
+    } else {
+        None
+    }
+}
+
 /// 2^e * (1 + frac/2^52) for a normal exponent, or None when out of the normal range.
 #[inline]
 pub fn mk_f64(neg: bool, e: i32, frac: u64) -> Option<f64> {
